@@ -696,6 +696,46 @@ func replayObligation(v *Verifier, o *Obligation, repo string) *replayOutcome {
 		}
 	}
 	out.Inputs = map[string]interface{}{"params": params, "names": names, "objects": mr.objects}
+	// functions that only read the file system (`replay fsread`): the files that exist in the model (statOK at the entry
+	// epoch, asked for every string of the input and its .fifo / .audit.json companions) are created in the scratch
+	// directory of the replay
+	fsread := false
+	for _, l := range c.Replay {
+		if strings.HasPrefix(strings.TrimSpace(l), "fsread") {
+			fsread = true
+		}
+	}
+	var files []string
+	if fsread {
+		if mr.declared("statOK") && mr.declared("GH_fsEpoch_0") {
+			ib, _ := json.Marshal(out.Inputs)
+			var cands []string
+			for _, s := range stringLiteralsIn(strings.ReplaceAll(string(ib), "\\\"", ""), 30) {
+				cands = append(cands, s, s+".fifo", s+".audit.json")
+			}
+			var terms []string
+			for _, s := range cands {
+				terms = append(terms, "(statOK GH_fsEpoch_0 "+smtString(s)+")")
+			}
+			vals := mr.eval(terms)
+			if vals == nil {
+				out.Reason = "cannot read the model's file system: " + mr.err
+				return out
+			}
+			for i, vv := range vals {
+				if vv.isAtom() && vv.atom == "true" {
+					p := cands[i]
+					if p == "" || strings.HasPrefix(p, "/") || strings.Contains(p, "..") || strings.ContainsAny(p, "\x00\n") {
+						out.Reason = "the model needs a file outside the scratch directory (" + strconv.Quote(p) + "): not replayed"
+						return out
+					}
+					files = append(files, p)
+				}
+			}
+		}
+		out.Inputs["files"] = files
+		out.Inputs["fs_known"] = true
+	}
 	pkg := fnPkg(fn)
 	out.Package = pkg.Pkg.Path()
 	obs, src, testOut, err := runRealFunction(v, fn, out.Inputs, repo)
@@ -714,6 +754,12 @@ func replayObligation(v *Verifier, o *Obligation, repo string) *replayOutcome {
 	if env == nil {
 		out.Reason = "cannot decode the dump of the real run"
 		return out
+	}
+	if fsread {
+		env.files = map[string]bool{}
+		for _, f := range files {
+			env.files[f] = true
+		}
 	}
 	// preconditions must hold on the input, otherwise the model's input is not an admissible call
 	for _, r := range c.Requires {
@@ -1005,10 +1051,22 @@ func runReplay(path, repo string) int {
 	fmt.Printf("input (parameters %v):\n%s\n", ns, ib)
 	rb, _ := json.MarshalIndent(obs["results"], "", " ")
 	fmt.Printf("results of the real %s:\n%s\n", fn, rb)
+	if p, _ := obs["panic"].(string); p != "" {
+		fmt.Println("the real function panicked on this input:", p)
+	}
 	env := buildEnv(v, fnPkg(f).Pkg, c, f, ns, obs)
 	if env == nil {
 		fmt.Println("cannot decode the dump")
 		return 2
+	}
+	if known, _ := inputs["fs_known"].(bool); known {
+		env.files = map[string]bool{}
+		if fl, ok := inputs["files"].([]interface{}); ok {
+			for _, x := range fl {
+				env.files[fmt.Sprint(x)] = true
+			}
+		}
+		fmt.Println("files present in the scratch directory:", inputs["files"])
 	}
 	bad := 0
 	for _, e := range append(append([]*Clause{}, c.Ensures...), c.ReplayChecks...) {
@@ -1034,6 +1092,7 @@ import (
 	"encoding/json"
 	"fmt"
 	"os"
+	"path/filepath"
 	"reflect"
 	"testing"
 	"time"
@@ -1153,8 +1212,13 @@ func (b *govcBuilder) fillStruct(dst reflect.Value, fs map[string]interface{}) {
 		return
 	}
 	for i := 0; i < dst.NumField(); i++ {
+		f := dst.Field(i)
 		if spec, ok := fs[dst.Type().Field(i).Name]; ok {
-			b.fill(dst.Field(i), spec)
+			b.fill(f, spec)
+		}
+		// locks and embedded parts are always allocated by the constructors of the library
+		if f.Kind() == reflect.Ptr && f.IsNil() && (f.Type().Elem().PkgPath() == "sync" || (dst.Type().Field(i).Anonymous && f.Type().Elem().Kind() == reflect.Struct)) {
+			b.set(f, reflect.New(f.Type().Elem()))
 		}
 	}
 }
@@ -1263,12 +1327,19 @@ func TestGovcReplay(t *testing.T) {
 	var in struct {
 		Params  []interface{}          ` + "`json:\"params\"`" + `
 		Objects map[string]interface{} ` + "`json:\"objects\"`" + `
+		Files   []string               ` + "`json:\"files\"`" + `
 	}
 	if err := json.Unmarshal(raw, &in); err != nil {
 		t.Fatal(err)
 	}
 	if cwd := os.Getenv("GOVC_REPLAY_CWD"); cwd != "" {
 		os.Chdir(cwd)
+	}
+	for _, f := range in.Files {
+		if dir := filepath.Dir(f); dir != "." {
+			os.MkdirAll(dir, 0o755)
+		}
+		os.WriteFile(f, []byte("x"), 0o644)
 	}
 	/*SETUP*/
 	fn := reflect.ValueOf(TARGET)
